@@ -544,7 +544,7 @@ fn gen_book(seed: u64) -> xlsw::XlsBook {
     book
 }
 
-/// "encrypt" everything after the first FILEPASS of the globals: payload bytes are replaced by noise, record
+/// "encrypt" the rest of the globals substream after its first FILEPASS: payload bytes are replaced by noise, record
 /// headers stay (as in real files), BOF/FILEPASS payloads and the BoundSheet8 stream offsets stay readable
 fn scramble(wb: &mut [u8], seed: u64) {
     let mut rng = Rng::new(seed);
@@ -564,6 +564,12 @@ fn scramble(wb: &mut [u8], seed: u64) {
         }
         if t == 0x002F {
             on = true;
+        }
+        if t == 0x000A {
+            // the sheet substreams stay readable: should a changed reader ever get past the FILEPASS record, noise
+            // in cell records would make it build ranges of up to 2^32 cells (dense allocation, ledger D37) and
+            // abort the whole harness instead of yielding a failing case
+            break;
         }
         p += 4 + l;
     }
@@ -601,6 +607,54 @@ fn judge_xls_file(out: &mut Outcome, bytes: &[u8], impl_tag: &str, drv: &mut Dri
     }
 }
 
+/// `Xls::new_with_options`: forced code page and header row
+fn open_xls_opts(bytes: &[u8], cp: Option<u16>, hr: calamine::HeaderRow) -> (String, String) {
+    let mut o = calamine::XlsOptions::default();
+    o.force_codepage = cp;
+    o.header_row = hr;
+    let r = guarded(|| Xls::new_with_options(Cursor::new(bytes), o));
+    let dbg = match &r {
+        Ok(Err(e)) => format!("{e:?}"),
+        _ => String::new(),
+    };
+    (open_tag(r, |e| matches!(e, calamine::XlsError::Password)), dbg)
+}
+
+/// The verdict must not depend on the options: with a code page the reader knows (forced or not) and any header
+/// row an encrypted workbook is `password` and anything else gives what `Xls::new` gives. A forced code page the
+/// reader does not know is rejected (`CodePageNotFound`) once the workbook stream is loaded and before any record
+/// is looked at, for encrypted and plain workbooks alike: pinned as the unchanged code's answer to an invalid
+/// option (model `xlsOpenWith false`), not held against the property.
+fn judge_xls_options(out: &mut Outcome, bytes: &[u8], tag0: &str, encrypted: bool, drv: &mut Driver, label: &str) {
+    use calamine::HeaderRow;
+    for (cp, hr, cls) in [(Some(1252u16), HeaderRow::Row(2), "cp1252+row2"), (Some(1200), HeaderRow::FirstNonEmptyRow, "cp1200"), (Some(932), HeaderRow::Row(0), "cp932+row0"), (None, HeaderRow::Row(7), "row7")] {
+        let (t, _) = open_xls_opts(bytes, cp, hr);
+        out.count(format!("xls-options:{cls}"));
+        if encrypted && t != "password" {
+            out.fail("impl_vs_spec", &format!("filepass-not-reported:options:{cls}"), &format!("{t} (Xls::new_with_options {cls}; Xls::new: {tag0})"), "", "password");
+        } else if t != tag0 {
+            out.fail("impl_vs_spec", &format!("options-dependent:xls:{cls}"), &format!("{t} (Xls::new_with_options {cls})"), "", &format!("{tag0} (as Xls::new)"));
+        }
+    }
+    // an id the `codepage` crate does not know
+    let (t, dbg) = open_xls_opts(bytes, Some(12345), HeaderRow::FirstNonEmptyRow);
+    out.count(format!("xls-options:unknown-codepage={}", t.split(':').next().unwrap()));
+    if bytes.len() <= 300_000 {
+        let m = drv.ask(&format!("xlsfilecp 0 {}", hex(bytes)));
+        if m.starts_with("err:unmodelled") {
+            return;
+        }
+        let m1 = drv.ask(&format!("xlsfilecp 1 {}", hex(bytes)));
+        if !agree(tag0, &m1) {
+            out.fail("impl_vs_model", &format!("{label}:file-options:impl={}:model={}", tag0.split(':').next().unwrap(), m1.split(':').next().unwrap()), tag0, &m1, "");
+        }
+        let pinned = if m == "err:cfb:codepage" { t.starts_with("err:") && dbg.contains("CodePageNotFound") } else { agree(&t, &m) };
+        if !pinned {
+            out.fail("impl_vs_model", &format!("{label}:unknown-codepage:impl={}:model={}", t.split(':').next().unwrap(), m.split(':').nth(2).unwrap_or(m.split(':').next().unwrap())), &format!("{t} {dbg}"), &m, "");
+        }
+    }
+}
+
 fn judge_xls(out: &mut Outcome, bytes: &[u8], wb: &[u8], drv: &mut Driver, expect_pw: Option<bool>, cls: &str, extras: bool) {
     let globals = frame_globals(wb);
     let cut = if wb.len() > 200_000 { globals.iter().map(|r| 4 + r.1.len()).sum::<usize>().min(wb.len()) } else { wb.len() };
@@ -614,6 +668,7 @@ fn judge_xls(out: &mut Outcome, bytes: &[u8], wb: &[u8], drv: &mut Driver, expec
     judge_xls_file(out, bytes, &it_, drv, "xls");
     judge_positions(out, "xls", bytes, &it_, expect_pw == Some(true), &ms, &open_xls_at);
     judge_positions_auto(out, bytes, &ms);
+    judge_xls_options(out, bytes, &it_, expect_pw == Some(true), drv, "xls");
     if ms != mr {
         out.fail("model_vs_spec", "xls-stream-vs-records", &it_, &reply, "");
     }
@@ -711,6 +766,7 @@ fn run_xlsraw(text: &str, drv: &mut Driver) -> Outcome {
     out.count(format!("xlsraw:impl={it_}"));
     judge_xls_file(&mut out, &bytes, &it_, drv, "xlsraw");
     judge_positions(&mut out, "xls", &bytes, &it_, !pre.iter().any(|r| r.0 == 0x000A), &ms, &open_xls_at);
+    judge_xls_options(&mut out, &bytes, &it_, !pre.iter().any(|r| r.0 == 0x000A), drv, "xlsraw");
     // the harness frames the Lean-encoded stream back: it must contain the FILEPASS record where it was put
     let g = frame_globals(&wb);
     let seen = g.iter().any(|r| r.0 == 0x2F);
@@ -859,6 +915,13 @@ fn entries_parse(s: &str) -> Vec<Vec<Child>> {
         return vec![];
     }
     s.split('|')
+        .flat_map(|e| {
+            // `<entry>*<k>`: k copies
+            match e.rsplit_once('*') {
+                Some((x, k)) => vec![x; k.parse().expect("repeat count")],
+                None => vec![e],
+            }
+        })
         .map(|e| {
             if e == "-" {
                 return vec![];
@@ -909,6 +972,8 @@ struct Ser {
     s: String,
     last_text: bool,
     rng: Rng,
+    /// full-path attributes are 64 random hex digits (poorly compressible: a deflated manifest stays large)
+    hex_names: bool,
 }
 
 impl Ser {
@@ -927,6 +992,7 @@ impl Ser {
     }
     fn attrs(&mut self, q: &str) -> String {
         match q {
+            FILE_ENTRY if self.hex_names => format!(" manifest:full-path=\"Pictures/{:016x}{:016x}{:016x}{:016x}.png\" manifest:media-type=\"image/png\"", self.rng.next(), self.rng.next(), self.rng.next(), self.rng.next()),
             FILE_ENTRY => format!(" manifest:full-path=\"{}\" manifest:media-type=\"text/xml\"{}", self.rng.pick(&["/", "content.xml", "styles.xml", "Pictures/a b.png", "encryption-data"]), if self.rng.chance(1, 2) { " manifest:size=\"1234\"" } else { "" }),
             ENC_DATA => " manifest:checksum-type=\"urn:oasis:names:tc:opendocument:xmlns:manifest:1.0#sha256-1k\" manifest:checksum=\"q83vEjRWeJA=\"".to_string(),
             _ => {
@@ -949,8 +1015,8 @@ impl Ser {
     }
 }
 
-fn manifest_xml(prolog: usize, root: &str, gap: usize, entries: &[Vec<Child>], seed: u64) -> String {
-    let mut z = Ser { s: String::new(), last_text: false, rng: Rng::new(seed) };
+fn manifest_xml(prolog: usize, root: &str, gap: usize, entries: &[Vec<Child>], seed: u64, hex_names: bool) -> String {
+    let mut z = Ser { s: String::new(), last_text: false, rng: Rng::new(seed), hex_names };
     for i in 0..prolog {
         if i == 0 {
             z.tag("<?xml version=\"1.0\" encoding=\"UTF-8\"?>");
@@ -1095,12 +1161,13 @@ fn run_ods(text: &str, drv: &mut Driver, extras: bool) -> Outcome {
     let variant: u64 = f[6].trim_start_matches("zip=").parse().expect("zip");
     let cipher = f[7] == "enc=1";
     let seed = verif_harness::fnv64(text.as_bytes());
-    let mut xml = manifest_xml(prolog, &root, gap, &entries, seed);
+    let hex_names = f.get(8) == Some(&"names=hex");
+    let mut xml = manifest_xml(prolog, &root, gap, &entries, seed, hex_names);
     let declares = entries.iter().any(|e| e.iter().any(|c| matches!(c, Child::Enc(_)) || *c == Child::Elem(ENC_DATA.into())));
     let nenc = entries.iter().filter(|e| e.iter().any(|c| matches!(c, Child::Enc(_)))).count();
     let first_enc = entries.iter().position(|e| e.iter().any(|c| matches!(c, Child::Enc(_))));
     // logical description → Lean encoder → events, model outcome, spec
-    let reply = drv.ask(&format!("manifest {} {} {} {}", prolog, hexs(&root), gap, f[4].replace('|', ";")));
+    let reply = drv.ask(&format!("manifest {} {} {} {}", prolog, hexs(&root), gap, entries_text(&entries).replace('|', ";")));
     let r: Vec<&str> = reply.split(' ').collect();
     let (levs, lmodel, lspec) = (r.first().copied().unwrap_or(""), r.get(1).copied().unwrap_or(""), r.get(2).copied().unwrap_or(""));
     let evs_full = tokenize(&xml);
@@ -1128,6 +1195,15 @@ fn run_ods(text: &str, drv: &mut Driver, extras: bool) -> Outcome {
     };
     let bytes = zip_ods(xml.as_bytes(), &content, variant);
     let it = open_ods(&bytes);
+    if entries.len() >= 500 {
+        let where_ = match first_enc {
+            None => "none",
+            Some(p) if p * 10 < entries.len() => "first",
+            Some(p) if p * 10 >= entries.len() * 9 => "last",
+            Some(_) => "middle",
+        };
+        out.count(format!("ods:big-manifest:{}KiB:{}:first-encrypted={where_}", (xml.len() >> 10) / 32 * 32, if variant & 1 == 1 { "stored" } else { "deflated" }));
+    }
     out.count(format!("ods:entries={}", match entries.len() { 0 => "0", 1 => "1", 2..=4 => "2-4", _ => "5+" }));
     out.count(format!("ods:encrypted-entries={}", match nenc { 0 => "0", 1 => "1", _ => "2+" }));
     if let Some(p) = first_enc {
@@ -1199,6 +1275,21 @@ fn gen_ods(rng: &mut Rng, thorough: bool) -> String {
     format!("ods;{};{};{};{};cut={};zip={};enc={}", rng.below(4), hexs(root), rng.below(3), entries_text(&entries), cut, rng.below(4), (encrypted && rng.chance(2, 3)) as u8)
 }
 
+/// a manifest of 600 – 3000 entries with poorly compressible names (a package with many pictures), stored or
+/// deflated, the encrypted entry (entries) first, in the middle or last
+fn gen_ods_big(rng: &mut Rng) -> String {
+    let n = rng.range(600, 3000) as usize;
+    let encd = "E6d616e69666573743a616c676f726974686d+6d616e69666573743a6b65792d64657269766174696f6e";
+    let entries = match rng.below(6) {
+        0 => format!("{encd}|-*{}", n - 1),
+        1 => format!("-*{}|T,{encd}|-*{}", n / 2, n - n / 2 - 1),
+        2 | 3 => format!("-*{}|{encd}", n - 1),
+        4 => format!("-*{}|{encd}|-*{}|{encd}", n - 12, 10),
+        _ => format!("-*{n}"),
+    };
+    format!("ods;1;{};{};{};cut=-;zip={};enc={};names=hex", hexs("manifest:manifest"), rng.below(2), entries, rng.below(4), rng.below(2))
+}
+
 // ---------------------------------------------------------------------------------------------
 // family conv: unencrypted workbooks from the shared writers; none may be reported as password protected
 
@@ -1236,6 +1327,7 @@ fn judge_plain(out: &mut Outcome, fmt: &str, bytes: &[u8], drv: &mut Driver, exp
         "xls" => {
             let it = open_xls(bytes);
             judge_xls_file(out, bytes, &it, drv, &format!("{label}:xls"));
+            judge_xls_options(out, bytes, &it, expect_pw, drv, &format!("{label}:xls"));
             let m = match extract_workbook_stream(bytes) {
                 Some(wb) => {
                     let g = frame_globals(&wb);
@@ -1456,6 +1548,14 @@ fn corpus() -> Vec<String> {
         format!("ooxml;{PLAIN},pl=1;{enc}:r1300000.1/{info}:r248.2"),
         format!("ooxml;{PLAIN4},pl=2;{enc}:r2500000.1/{info}:r248.2"),
         format!("ooxml;{PLAIN},pl=0,df=1;{enc}:r1300000.1/{info}:r248.2"),
+        // seeded change C20-m11: containers of 17 – 20 MiB, allocation tables and directory at the end (beyond 2^24)
+        format!("ooxml;{PLAIN},pl=1;{enc}:r17900000.1/{info}:r248.2"),
+        format!("ooxml;{PLAIN4},pl=1;{enc}:r19500000.3/{info}:r5000.2"),
+        // seeded change C20-m10: manifests of 2500 / 1200 entries with random names, deflated (zip=0/2) and stored
+        // (zip=1), the only encrypted entry last / in the middle
+        format!("ods;1;{};0;-*2499|E6d616e69666573743a616c676f726974686d;cut=-;zip=0;enc=1;names=hex", hexs("manifest:manifest")),
+        format!("ods;1;{};1;-*600|T,E|-*599;cut=-;zip=2;enc=1;names=hex", hexs("manifest:manifest")),
+        format!("ods;1;{};0;-*2499|E;cut=-;zip=1;enc=0;names=hex", hexs("manifest:manifest")),
         // compound files that are not encrypted packages
         format!("ooxml;{PLAIN};{}:r100.1/{info}:r248.2", hexs("encryptedpackage")),
         format!("ooxml;{PLAIN};_"),
@@ -1494,11 +1594,11 @@ fn main() {
         "C20",
         "encrypted OOXML packages (compound files from cfbw: v3/v4, shuffled/fragmented, free sectors, DIFAT, stale characters behind the NUL of directory names, EncryptedPackage of \
          0..70000 bytes in the mini stream or in regular sectors, EncryptionInfo standard/agile/extensible headers + arbitrary bytes, \
-         DataSpaces streams; near-miss names as negatives; one case in 500 with a 1.2-3 MiB package and the allocation tables/directory at the start, end or middle of the file; one in ten truncated or with one byte overwritten: impl vs model only) opened with Xlsx::new and Xlsb::new; BIFF8 workbooks from xlsw with a \
-         FILEPASS record (wEncryptionType 0 / 1 RC4 / 1 CryptoAPI / other / truncated) first after BOF, after other globals records, \
+         DataSpaces streams; near-miss names as negatives; one case in 500 with a 1.2-3 MiB package and the allocation tables/directory at the start, end or middle of the file, and two corpus containers of 17-20 MiB with the tables at the end (no Lean model above 4 MiB); one in ten truncated or with one byte overwritten: impl vs model only) opened with Xlsx::new and Xlsb::new; BIFF8 workbooks from xlsw with a \
+         FILEPASS record (wEncryptionType 0 / 1 RC4 / 1 CryptoAPI / other / truncated; every workbook also opened through Xls::new_with_options with forced code pages 1252/1200/932/unknown and header rows: same verdict) first after BOF, after other globals records, \
          or last before EOF, stream named Workbook or Book, rest of the stream optionally replaced by noise, a FILEPASS-typed record inside a sheet substream as a negative, plus globals streams laid out by the Lean encoder; \
          ods packages whose manifest (0..40 entries, encryption-data in any subset of them, other children, comments, white space, \
-         unusual root names, optionally truncated) is serialized from a logical description; conversely random unencrypted workbooks \
+         unusual root names, optionally truncated; one case in 500 with 600-3000 entries of random names, stored or deflated, the encrypted entry first/middle/last) is serialized from a logical description; conversely random unencrypted workbooks \
          of the four formats from the shared writers and every fixture of /repo/tests. every file is opened through readers handed over at offset 0, 4, 8, mid-file and EOF (all four readers and open_workbook_auto_from_rs): the result class must not depend on it. impl = the reader's constructor result class, \
          model = Lean decision logic on the same bytes/records/events, oracle = the description's own encrypted flag. \
          Outside the generator: manifests with a namespace prefix other than `manifest:`, compound files with storages as a tree. \
@@ -1516,6 +1616,10 @@ fn main() {
         let thorough = args.thorough();
         for i in 0..n {
             let mut r = rng.fork();
+            if i % 500 == 375 {
+                cases.push(gen_ods_big(&mut r));
+                continue;
+            }
             if i % 500 == 125 {
                 cases.push(gen_ooxml_big(&mut r));
                 continue;
